@@ -103,8 +103,84 @@ let run_seq (ops : op list) : string =
   end;
   Buffer.contents b
 
+(* ---------------------------------------------------------------- histories with Join
+   join <np> <step> ...   steps as above with the promise index after '@':
+     F@k:<caps>:-  R@k:-  S@k:<path>:<g>  V@k:<path>:<g>  C@k:<path>:<slot>  L@k  W@k  J@k:<parent>
+     K:<slot>:<g>  Q:<slot>:<g>  U:<n> *)
+let jvariant = ref jfixed
+let () =
+  let rec go = function
+    | "-jvariant" :: v :: r ->
+      jvariant := (match v with "seed3" -> jseed3 | "f11c" -> jf11c | _ -> jfixed); go r
+    | _ :: r -> go r
+    | [] -> () in
+  go (Array.to_list Sys.argv)
+
+let jop_of (s : string) : jop =
+  match String.split_on_char ':' s with
+  | [] -> failwith "empty"
+  | hd :: rest ->
+    let kind, k = match String.split_on_char '@' hd with
+      | [a; b] -> a, nat_of_int (int_of_string b)
+      | [a] -> a, nat_of_int 0
+      | _ -> failwith ("bad step " ^ s) in
+    (match kind, rest with
+     | "F", [caps; _] -> JFulfill (k, caps_of caps)
+     | "R", [_] -> JReject k
+     | ("S" | "V"), [p; g] -> JSend (k, path_of p, g_of g)
+     | "C", [p; sl] -> JClient (k, path_of p, z_of_int (int_of_string sl))
+     | ("K" | "Q"), [sl; g] -> JCall (z_of_int (int_of_string sl), g_of g)
+     | "L", [] -> JRelease k
+     | "W", [] -> JWait k
+     | "J", [par] -> JJoin (k, nat_of_int (int_of_string par))
+     | "U", [n] -> JUngate (nat_of_int (int_of_string n))
+     | _ -> failwith ("bad step " ^ s))
+
+let run_join (np : int) (ops : jop list) : string =
+  let n = List.length ops in
+  let b = Buffer.create 256 in
+  let c = ref (jinit (nat_of_int np) ops) in
+  let hang = ref false in
+  let i = ref 0 in
+  while !i < n && not !hang do
+    let before = !c in
+    (match jquiesce !jvariant fuel before (nat_of_int (!i + 1)) with
+     | None -> Buffer.add_string b "FUEL"; hang := true
+     | Some c' ->
+       c := c';
+       let items = ref [] in
+       let ne = List.length c'.jevents - List.length before.jevents in
+       List.iter (function
+           | EDeliver (t, d) -> items := (int_of_nat t, 1, Printf.sprintf "d%d=%s" (int_of_nat t) (dest_s d)) :: !items
+           | _ -> ()) (take ne c'.jevents);
+       List.iteri (fun j th ->
+           if j <= !i && jfinished c' (nat_of_int j) && not (jfinished before (nat_of_int j)) then
+             items := (j, 0, Printf.sprintf "c%d=%s" j (out_s th.j_out)) :: !items) c'.jthreads;
+       let items = List.sort compare !items in
+       let stuck_on_mu = ref false in
+       for j = 0 to !i do
+         if jmutex_blocked c' (nat_of_int j) then stuck_on_mu := true
+       done;
+       if !stuck_on_mu then (Buffer.add_string b " HANG"; hang := true)
+       else begin
+         if !i > 0 then Buffer.add_char b '|';
+         Buffer.add_string b (string_of_int !i ^ ":");
+         Buffer.add_string b (String.concat "," (List.map (fun (_, _, s) -> s) items))
+       end);
+    incr i
+  done;
+  if not !hang then begin
+    let st = ref [] in
+    for j = n - 1 downto 0 do if not (jfinished !c (nat_of_int j)) then st := string_of_int j :: !st done;
+    Buffer.add_string b (" stuck=" ^ (if !st = [] then "-" else String.concat "," !st));
+    Buffer.add_string b (if all_mu_free !c then " mu=free" else " mu=held")
+  end;
+  Buffer.contents b
+
 let () = iter_lines (fun line ->
   match split_ws line with
+  | "join" :: np :: steps ->
+    print_endline (try run_join (int_of_string np) (List.map jop_of steps) with Failure m -> "bad-case " ^ m)
   | "seq" :: steps -> print_endline (try run_seq (List.map op_of steps) with Failure m -> "bad-case " ^ m)
   | [] -> ()
   | _ -> print_endline "bad-case")
